@@ -326,6 +326,30 @@ impl World {
             .lib("LayeredFilesystem::new", || LayeredFilesystem::new(roots.iter().map(|r| r.display().to_string()).collect(), lang, game).map_err(|e| e.to_string()))
             .ok_or("panic in LayeredFilesystem::new")?
             .map_err(|e| format!("LayeredFilesystem::new failed for a supported game: {}", e))?;
+        // configuration accessors must agree with the codec table of the statement
+        let be = matches!(fs.endian(), mila::Endian::Big);
+        let uni = matches!(fs.text_archive_format(), mila::TextArchiveFormat::Unicode);
+        if be != cfg.be || uni != cfg.unicode || fs.language() != lang {
+            c.fail(
+                "configuration",
+                "accessor_config",
+                format!("{} {}: endian()={:?} text_archive_format()={:?} language()={:?}", game_name(game), loc::lang_name(lang), fs.endian(), fs.text_archive_format(), fs.language()),
+            );
+        }
+        // half of the worlds run on a clone of the filesystem object: a clone must behave identically
+        let fs = if rng.bool() {
+            c.sit("operations_on_a_cloned_filesystem");
+            let cl = c.lib("LayeredFilesystem::clone", || fs.clone()).ok_or("panic in clone")?;
+            // the localizer accessor of the clone resolves like the original
+            let p = "a/b.bin";
+            let (x, y) = (fs.localizer().localize(p, &lang).ok(), cl.localizer().localize(p, &lang).ok());
+            if x != y {
+                c.fail("configuration", "clone_localizer", format!("clone localizes {:?} to {:?}, original to {:?}", p, y, x));
+            }
+            cl
+        } else {
+            fs
+        };
         Ok(World { base, roots, layers, game, lang, cfg, loc: l, fs, known_arcs })
     }
 
